@@ -492,3 +492,7 @@ def units(tier):
 
 def replay(ctx, case):
     run_history(ctx, case)
+
+
+# dimensions added after the fourth and fifth round of seeded changes (DESIGN.md 8.3, 8.4); part of the rule reported in the evidence
+RULE += ' Added with the fourth and fifth round of seeded changes: whole run() calls refused on their first batch or on a later batch (accepted batches stay accepted); 4600-row text batches with one unconvertible entry at row 4500.'
